@@ -458,6 +458,36 @@ pub fn run_case(line: &str) -> String {
         }
         // UO <u|cap>: a small metric, one of 70 000 bytes (more than a UDP datagram can carry: the OS refuses the send),
         // a small one, flush.  observation: R|S|A  (A = underlying send attempts for the buffered sink)
+        // UO6 <len>: one metric of <len> bytes (above the IPv4 datagram limit of 65507, within the IPv6 one of 65527)
+        // through the UNBUFFERED UDP sink to an IPv6 loopback listener: one datagram, exactly those bytes, Ok(len)
+        "UO6" => {
+            let r = match UdpSocket::bind("[::1]:0") {
+                Ok(s) => s,
+                Err(_) => return "noipv6".to_string(),
+            };
+            r.set_nonblocking(true).unwrap();
+            let send = match UdpSocket::bind("[::1]:0") {
+                Ok(s) => s,
+                Err(_) => return "noipv6".to_string(),
+            };
+            let len: usize = t[1].parse().unwrap();
+            let m = format!("six.big:{}|c", "7".repeat(len.saturating_sub(10)));
+            // control: does the OS carry a datagram of this size to this listener from a plain std socket?
+            let ctl = UdpSocket::bind("[::1]:0").and_then(|c| c.send_to(m.as_bytes(), r.local_addr().unwrap())).is_ok();
+            let mut pre = vec![];
+            Recv::Udp(r.try_clone().expect("clone")).drain(&mut pre, 30);
+            let sink = UdpMetricSink::from(r.local_addr().unwrap(), send).expect("sink");
+            let res = match sink.emit(&m) {
+                Ok(k) => format!("k{}", k),
+                Err(_) => "e".to_string(),
+            };
+            let st = sink.stats();
+            drop(sink);
+            let mut got = vec![];
+            Recv::Udp(r).drain(&mut got, 30);
+            let whole = got.len() == 1 && got[0] == m.as_bytes();
+            format!("R:{}|L:{}|D:{}|W:{}|S:{}|C:{}", res, m.len(), got.len(), whole as u8, stats_str(&st), if ctl && pre.len() == 1 { "k" } else { "e" })
+        }
         "UO" => {
             let (recv, send, addr) = udp_pair(false);
             let attempts = Arc::new(AtomicU64::new(0));
@@ -681,17 +711,37 @@ pub fn run_case(line: &str) -> String {
             let unbuffered_attempts = n as u64;
             let st = sink.stats();
             let att = if t[1] == "u" { unbuffered_attempts } else { attempts.load(Ordering::SeqCst) };
-            std::mem::forget(sink);     // no drop-time flush: the figures were read above
             cadence::verif::uninstall();
+            let rv = Recv::Unix(Some(recv), p.clone());
             let mut got = vec![];
-            Recv::Unix(Some(recv), p.clone()).drain(&mut got, 20);
+            rv.drain(&mut got, 20);
+            // recovery (buffered sinks): the listener reads again; flush until it answers Ok, then drop.  Everything whose
+            // emit returned Ok must be on the wire exactly once afterwards, nothing whose emit returned an error
+            let mut after = vec![];
+            let mut flushes = vec![];
+            if t[1] == "u" {
+                std::mem::forget(sink);
+            } else {
+                for _ in 0..200 {
+                    let r = sink.flush();
+                    rv.drain(&mut after, 5);
+                    flushes.push(if r.is_ok() { "k" } else { "e" });
+                    if r.is_ok() {
+                        break;
+                    }
+                }
+                drop(sink);
+                rv.drain(&mut after, 20);
+            }
             let _ = std::fs::remove_file(&p);
             format!(
-                "R:{}|D:{}|S:{}|A:{}",
+                "R:{}|D:{}|S:{}|A:{}|G:{}|Y:{}",
                 res.join(","),
                 got.iter().map(|d| hex(d)).collect::<Vec<_>>().join(";"),
                 stats_str(&st),
-                att
+                att,
+                after.iter().map(|d| hex(d)).collect::<Vec<_>>().join(";"),
+                flushes.join("")
             )
         }
         "XL" => {
